@@ -36,8 +36,8 @@ def main():
     patch = os.path.join(mdir, "patch.diff")
     demo_src = open(os.path.join(mdir, "demo.py")).read()
     # make the demonstration relocatable: FLODYM_ROOT (default /repo) instead of the scratch path
-    demo_src = re.sub(r"([\"'])/tmp/mut[2345]?/C\d\d\1", '__import__("os").environ.get("FLODYM_ROOT", "/repo")', demo_src)
-    demo_src = re.sub(r"/tmp/mut[2345]?/C\d\d", "/repo", demo_src)
+    demo_src = re.sub(r"([\"'])/tmp/mut[23456]?/C\d\d\1", '__import__("os").environ.get("FLODYM_ROOT", "/repo")', demo_src)
+    demo_src = re.sub(r"/tmp/mut[23456]?/C\d\d", "/repo", demo_src)
     out = os.path.join(VERIF, "seeded", sid)
     os.makedirs(out, exist_ok=True)
     demo = os.path.join(out, "demo.py")
